@@ -161,6 +161,7 @@ extern "C"
         waiter w;
         int id, kind;
         int handler; // which of the two handlers the owner set last
+        int reparks_left = 0; // kind 2: the handler parks the waiter again, at the front of the same queue, once per park
         igris::dlist_base *head;
     };
     static void dlg_common(Dlg *d, int which)
@@ -168,6 +169,11 @@ extern "C"
         h_delegate_handler(d->id, which, d->handler);
         h_delegate_woken(d->id, unwiden((intptr_t)d->w.future));
         if (d->kind == 1) unwait_one(d->head, widen(500000 + d->id));
+        if (d->kind == 2 && d->reparks_left > 0)
+        {
+            d->reparks_left--;
+            d->head->move_front(d->w.lnk); // (inside the wake: the system lock is held by the waker)
+        }
     }
     static void dlg_handler(void *arg) { dlg_common((Dlg *)arg, 0); }
     static void dlg_handler_b(void *arg) { dlg_common((Dlg *)arg, 1); }
@@ -193,6 +199,7 @@ extern "C"
         system_lock();
         h_delegate_parking(d->id, how & 1, head);
         d->head = h;
+        d->reparks_left = d->kind == 2 ? 1 : 0;
         if (how & 1) h->move_front(d->w.lnk);
         else h->move_back(d->w.lnk);
         if (how & 2)
